@@ -152,9 +152,9 @@ package api
 
 // Handle: a message is either dispatched to exactly one handler goroutine with the message's
 // operation ID, or answered with exactly one error (malformed: without ID; unknown method: with its ID)
+// (no message, however malformed, makes Handle index out of range or dereference nil: nopanic is on)
 //@ func (*DatabaseAPI).Handle
-//@   requires api != nil
-//@   nopanic off
+//@   requires api != nil && api.db != nil && api.db.options != nil
 //@   modifies *
 //@   ghost var spawned int = 0
 //@   ghost var sends int = 0
@@ -177,8 +177,7 @@ package api
 //@   ensures sends == 1 && (last == dbMsgTypeOk || last == dbMsgTypeError)
 
 //@ func (*DatabaseAPI).handlePut
-//@   requires api != nil
-//@   nopanic off
+//@   requires api != nil && api.db != nil && api.db.options != nil
 //@   modifies *
 //@   ghost var sends int = 0
 //@   ghost var last string = ""
